@@ -28,9 +28,12 @@ inductive Kind where
 
 def kindOf (r : PathRule) : Kind := if r.hasSW then .segwc else if r.isPrefix then .pref else .exact
 
-/-- all path stanzas of the attached policies -/
-def rulesOf (ps : List (Option Policy)) : List PathRule :=
-  ps.flatMap fun p => match p with | none => [] | some p => p.paths
+/-- a stanza counts at the instant `now` iff it has no expiration or `now` is not after it -/
+def liveAt (now : Int) (r : PathRule) : Bool := !expiredAt now r.expiration
+
+/-- all path stanzas of the attached policies that count at the instant `now` -/
+def rulesOf (now : Int) (ps : List (Option Policy)) : List PathRule :=
+  ps.flatMap fun p => match p with | none => [] | some p => p.paths.filter (liveAt now)
 
 /-- the permissions of all stanzas written for one pattern -/
 def permsFor (rules : List PathRule) (kind : Kind) (k : Path) : List Perms :=
@@ -155,17 +158,21 @@ def specDecide (rules : List PathRule) (req : Req) (capCheckOnly : Bool) : Res :
   | some (kind, k) => specCheck (permsFor rules kind k) req capCheckOnly
 
 /-- the documented decision as a function of the attached policies -/
-def specAllow (ps : List (Option Policy)) (req : Req) (capCheckOnly : Bool) : Res :=
+def specAllow (now : Int) (ps : List (Option Policy)) (req : Req) (capCheckOnly : Bool) : Res :=
   if hasRoot ps then { allowed := true, rootPrivs := true, isRoot := true, limit := limitOf req.data }
   else if req.op = .help then { allowed := true, limit := limitOf req.data }
-  else specDecide (rulesOf ps) req capCheckOnly
+  else specDecide (rulesOf now ps) req capCheckOnly
 
 /-- a stanza with every fine-grained constraint removed (same pattern, same capabilities) -/
 def stripRule (r : PathRule) : PathRule := { r with perms := { caps := r.perms.caps } }
 
 def stripPolicy (p : Option Policy) : Option Policy := p.map fun p => { p with paths := p.paths.map stripRule }
 
-def specCapabilities (ps : List (Option Policy)) (path : Path) : List String :=
-  capList (specAllow ps { path, op := .list } true)
+def specCapabilities (now : Int) (ps : List (Option Policy)) (path : Path) : List String :=
+  capList (specAllow now ps { path, op := .list } true)
+
+/-- the policy without the stanzas that are expired at `now` -/
+def dropExpired (now : Int) (p : Option Policy) : Option Policy :=
+  p.map fun p => { p with paths := p.paths.filter (liveAt now) }
 
 end Obao.ACLSpec
